@@ -26,6 +26,8 @@ RULE = (
     "x*c, x%c, keccak of words / of dynamic content, array length and elements, storage written by setUp, optional vm.assume; "
     "every second contract also has a counted loop with a symbolic trip count (while-shaped, and do-while-shaped whose back edge is "
     "the taken JUMPI side) failing only after exactly k iterations, run with a per-function --loop below / above k; "
+    "value-bearing CALLs (symbolic value) to reverting / accepting / conditionally reverting callees deployed by setUp, the failure "
+    "swallowed, with assertions on balance(this) / balance(callee) that hold only with or only without the refund; "
     "tests where one sibling path learns x == c1 and the other re-reads x from calldata and fails for x == c2 (flat / nested, "
     "learning side explored first / last, x used directly, after arithmetic, through memory); "
     "a family of tests with several assertion-bearing sibling paths of identical shape (per-length branches of a bytes / uint256[] "
@@ -235,7 +237,10 @@ def make_jobs(ctx, specs, combos, sweep=40):
         if kw.get("solver"):
             cs = [(s_, c_, cs[0][2]) for (s_, c_) in _solver_cmds() if s_ == kw["solver"]][:1] or cs
         for solver, cmd, layout in cs:
-            gen = e2e.gen_contract(random.Random(seed), name=name, pool=kw.get("pool", ()), ntests=kw.get("ntests", 3),
+            if kw.get("value"):
+                gen = e2e.gen_value_contract(random.Random(seed), name=name, variants=kw["value"] if isinstance(kw["value"], list) else None)
+            else:
+                gen = e2e.gen_contract(random.Random(seed), name=name, pool=kw.get("pool", ()), ntests=kw.get("ntests", 3),
                                    bytes_sizes=kw.get("bytes_sizes"), array_sizes=kw.get("array_sizes"),
                                    panic_codes=kw.get("gen_panic_codes", (1,)), touch=kw.get("touch", False),
                                    loops=kw.get("loops", False), siblings=kw.get("siblings"), subst=kw.get("subst"))
@@ -365,6 +370,9 @@ def correspond(ctx):
                              {"learn_on": "taken", "deep": False, "use": "mem", "kind": "assertTrue"},
                              {"learn_on": "fall", "deep": False, "use": "mem", "kind": "panic"}]):
         specs.append((21 + j, f"Subst{j}", {"pool": pool, "ntests": 0, "subst": sub}))
+    # directed: value-bearing CALLs whose failure is swallowed, assertions on balances (refund of the value of a failed call)
+    specs.append((31, "Val0", {"pool": pool, "value": [["revert", "self-minus-v"], ["revert", "self-same"], ["accept", "self-same"]]}))
+    specs.append((32, "Val1", {"pool": pool, "value": [["odd-reverts", "callee-zero"], ["invalid", "callee-eq-v"], ["odd-reverts", "self-minus-v"]]}))
     for sp in specs:
         sp[2]["directed"] = True
     nsib = ctx.scale(6, 24)
@@ -395,6 +403,8 @@ def correspond(ctx):
             kw["loops"] = True
         if i % 4 == 3:
             kw["subst"] = True
+        if i % 8 == 6:
+            kw = {"pool": pool, "value": True}
         if i % 6 == 5:
             kw["gen_panic_codes"] = (1, 0x11, 0x32)
             kw["panic_error_codes"] = ctx.rng.choice(["0x11", "0x01,0x32", "*"])
